@@ -324,6 +324,32 @@ def long_division_ref(n_is_tf):
     q3 = mk("f", "div", HI(r2), HI(d))
     return q1, q2, q3
 
+def check_longdiv_error(rep):
+    """R10e: relative error of the three-digit long division in the form R10 established (exact rationals; DESIGN B.5).
+    q1 = (n/d)(1+e1), |e1| <= (1+u)^2/(1-u) - 1 (high words within u of the values, one f64 division);
+    r_c = (n - d q1 (1+mu))(1+alpha) with Alg. 9 (2u^2) and Alg. 6 (3u^2+13u^3): r_c = r1 + e_r, r1 = n - d q1 = -n e1;
+    q2 = (r_c/d)(1+e2); r2 = r_c - d q2 = -r_c e2.  renorm3(q1, q2, q3) is Fast2Sum(q1, q2) exactly: its second step
+    Fast2Sum(q3, u.hi) has |q3| <= 2^-60 |u.hi| and returns (u.hi, 0) (the third digit is absorbed), the last step re-normalises a
+    normalised pair.  Hence  n/d - q = (r2 - e_r)/d."""
+    from fractions import Fraction as Fr
+    u = Fr(1, 2 ** 53); u2 = u * u
+    e1 = (1 + u) ** 2 / (1 - u) - 1
+    mu = 2 * u2
+    alpha = 3 * u2 + 13 * u ** 3
+    r1 = e1                                   # |r1| / |n|
+    e_r = (1 + e1) * mu * (1 + alpha) + r1 * alpha
+    r_c = r1 + e_r
+    e2 = e1
+    r2 = r_c * e2
+    total = r2 + e_r                          # relative to |n/d|
+    q3 = (r2 + (r_c * (1 + e2)) * mu * (1 + alpha) + r2 * alpha) * (1 + e1)      # |q3| / |n/d|
+    absorbed = q3 / (1 - e1 - r_c * (1 + e2)) <= Fr(1, 2 ** 60)
+    rep.check(total <= 16 * u2 and absorbed, "R10e", "long division relative error (f64/TwoFloat, TwoFloat/TwoFloat, /=, recip)", "errbound:longdiv",
+              "the long division is bounded only by %.2f u^2 (third digit absorbed: %s), the property needs 16 u^2" % (float(total / u2), absorbed),
+              detail={"bound": "%.2f * 2^-106" % float(total / u2), "first residual": "%.3f u" % float(r1 / u), "rounding of the first residual": "%.3f u^2" % float(e_r / u2),
+                      "second residual (= what the dropped third digit would have corrected)": "%.3f u^2" % float(r2 / u2), "third digit": "<= %.3g of the quotient" % float(q3),
+                      "lemmas": "f64 division correctly rounded; Alg. 9 / Alg. 6 / Alg. 4 bounds for the conforming operators (C03, C04); no under/overflow for high words in [2^-450, 2^450]"})
+
 def check_C05(ctx, rep):
     f = ctx.facts("A")
     p0, p1 = P(0), P(1)
@@ -331,6 +357,7 @@ def check_C05(ctx, rep):
     expect_pair(rep, f, "R9", H.op_ident("Div", rt, rf, "div"), refs.DW_DIV_FP(HI(p0), LO(p0), p1))
     expect_pair(rep, f, "R9", "<TwoFloat as core::ops::DivAssign<&f64>>::div_assign", refs.DW_DIV_FP(HI(p0), LO(p0), p1), assign=True)
     # R10 skeleton
+    r10_ok = True
     r3 = [b.ident() for b in find_by_shape(f, 3, refs.R3)]
     N = norm.Normalizer("E")
     for ident, n_is_tf, assign in ((H.op_ident("Div", rf, rt, "div"), False, False), (H.op_ident("Div", rt, rt, "div"), True, False),
@@ -362,6 +389,9 @@ def check_C05(ctx, rep):
                 msg = "result is not renorm3(q1, q2, q3): %s" % vg.show(v)[:300]
         rep.check(ok, "R10", ident, "long-division:" + ident, "%s does not follow the three-digit long division skeleton: %s" % (ident, msg),
                   where=H.where(b), detail="q1=n.hi/d.hi; r=n-d*q1; q2=r.hi/d.hi; r-=d*q2; q3=r.hi/d.hi; renorm3", algebra="E")
+        r10_ok = r10_ok and ok
+    if r10_ok and r3:
+        check_longdiv_error(rep)
     # R11 recip
     b = f.get("TwoFloat::recip")
     if b is None:
